@@ -12,7 +12,7 @@ SETTINGS_OK = ['settings.psi_1b >= 0', 'settings.psi_1e >= 0', 'settings.psi_2b 
 
 for name, nd in (('dtw_distance', False), ('dtw_distance_ndim', True)):
     contract(
-        'dd_dtw.c::' + name,
+        'dd_dtw.c::' + name + '#value',
         params=dict([('s1', 'cptr:val'), ('l1', 'int'), ('s2', 'cptr:val'), ('l2', 'int')]
                     + ([('ndim', 'int')] if nd else []) + [('settings', ('cstruct', 'DTWSettings'))]),
         requires=['l1 >= 1', 'l2 >= 1', 'off(s1) >= 0', 'off(s2) >= 0',
@@ -154,6 +154,8 @@ def _distances(name, kind, nd):
         },
         returns='int',
         replay=gens.gen_distances(kind, nd),
+        callee_views={'dd_dtw.c::dtw_distance': 'dd_dtw.c::dtw_distance#value',
+                      'dd_dtw.c::dtw_distance_ndim': 'dd_dtw.c::dtw_distance_ndim#value'},
         theories=('layout',),
         lemmas=LAYOUT_LEMMAS,
         props=('C06', 'C08', 'C20', 'C07'),
